@@ -4,3 +4,4 @@ pub mod fm;
 pub mod c18;
 pub mod c19;
 pub mod recvfm;
+pub mod derive;
